@@ -310,7 +310,8 @@ def run_script(ctx, exe, script, cfg, tag, timeout=240, stall_s=30):
     path = os.path.join(d, tag + '.txt')
     txt = script if isinstance(script, str) else script.text()
     with open(path, 'w') as f: f.write(txt)
-    env = {}
+    env = {'PARSEC_MCA_dtd_tile_hash_size': 64}      # the default (104729 buckets) only costs start-up time for <= 10 tiles
+    if cfg.get('ranks', 1) > 1: env.update(vfcore.MPI_ENV)      # recorded so that run.sh of a replay works on its own
     if cfg.get('sched'): env['PARSEC_MCA_mca_sched'] = cfg['sched']
     if cfg.get('window'): env['PARSEC_MCA_dtd_window_size'] = cfg['window']
     if cfg.get('threshold'): env['PARSEC_MCA_dtd_threshold_size'] = cfg['threshold']
@@ -353,10 +354,25 @@ def blocked_frames(bt):
     return '+'.join(f) if f else 'no backtrace'
 
 
+def persist_script(r, txt):
+    """Replays must outlive ctx.work: park the script next to the replays and point the recorded command at it."""
+    try:
+        d = os.path.join(vfcore.REPLAYS, '_e2_scripts'); os.makedirs(d, exist_ok=True)
+        path = os.path.join(d, hashlib.sha1(txt.encode()).hexdigest()[:16] + '.txt')
+        if not os.path.exists(path):
+            with open(path, 'w') as f: f.write(txt)
+        if r.cmd and '--script' in r.cmd:
+            i = r.cmd.index('--script'); r.cmd = list(r.cmd); r.cmd[i + 1] = path
+    except (OSError, ValueError):
+        pass
+
+
 def judge(ctx, prop, r, txt, what, feature=None):
     """Route one run.  Violations of the other two E2 oracles are noted (and make the case inconclusive for this
     property) but never reported under this property's id.  Returns status and the summary dict (or None)."""
     own = OWN[prop]; foreign = []
+    if r.of('violation') or r.san or r.signal is not None or r.rc not in (0,):
+        persist_script(r, txt)
     keep = []
     for o in r.objs:
         if o.get('type') == 'violation' and not o.get('key', '').startswith(own):
@@ -424,6 +440,7 @@ class Campaign:
             r2 = runner()
             if r2.stalled:
                 cls = stall_class(r2.backtraces or r.backtraces, r2.of('stuck') + r.of('stuck'), s, cfg)
+                persist_script(r2, txt)
                 if feature: cls = cls.replace('dtd:stall', 'stall')
                 key = (feature + ':' if feature else '') + (job.get('stall_key') or cls)
                 v = ctx.violation(key, '%s made no progress twice (no task executed during the stall window); blocked in: %s; %s'
@@ -431,10 +448,18 @@ class Campaign:
                 job['status'] = 'violation' if v else 'known'; job['result'] = r2
                 return job
             ctx.inconclusive_case('%s stalled once (not reproduced)' % what)
+            print('INCONCLUSIVE %s: stalled once, not reproduced' % what)
             r = r2
         if r.timed_out:
-            ctx.inconclusive_case('%s hit the overall time-out (start-up or tear-down slow; not a verdict)' % what)
-            job['status'] = 'inconclusive'; job['result'] = r
+            # oracle verdicts already printed by the harness stay valid even if start-up / tear-down then ran into the overall time-out
+            st = 'inconclusive'
+            if r.of('violation') or r.san:
+                st, _ = judge(ctx, self.prop, r, txt, what, feature)
+            if st in ('stalled', 'ok', 'inconclusive'):
+                st = 'inconclusive'
+                ctx.inconclusive_case('%s hit the overall time-out outside the monitored phase (start-up or tear-down; not a verdict)' % what)
+                print('INCONCLUSIVE %s: overall time-out; %s' % (what, _stuck_lines(r)[:300]))
+            job['status'] = st; job['result'] = r
             return job
         st, summ = judge(ctx, self.prop, r, txt, what, feature)
         job['status'] = st; job['result'] = r; job['summary'] = summ
